@@ -40,6 +40,8 @@ pub enum Act {
     TruncateCached,
     /// 16 bytes are appended to a cached file (its size exceeds the repository's)
     ExtendCached,
+    /// a cached tree pack is replaced by a foreign file of another size (other bytes, 16 more)
+    ForeignLongerCachedPack,
     ForeignCached,
     PlantJunk,
 }
@@ -53,6 +55,8 @@ pub struct St {
     snap_ids: Vec<String>,
     /// a cached file was replaced by other bytes of the same size (undetectable by size)
     tainted: bool,
+    /// a cached tree pack was replaced by a longer foreign file and no check has cleaned it up yet
+    tainted_pack: bool,
 }
 
 pub struct C19 {
@@ -152,7 +156,7 @@ impl SeqModel for C19 {
         cfg.treepack_size = Some(500);
         cfg.treepack_growfactor = Some(0);
         _ = env.init_with(cfg).expect("init");
-        let empty = St { store: env.store(), cache: FsTree::new(), n: 0, snap_ids: vec![], tainted: false };
+        let empty = St { store: env.store(), cache: FsTree::new(), n: 0, snap_ids: vec![], tainted: false, tainted_pack: false };
         // a repository with two snapshots whose cache was filled by a cached handle
         let mut s = empty.clone();
         for a in [Act::Cached(Op::Backup), Act::Cached(Op::Backup), Act::Cached(Op::ReadAll)] {
@@ -183,6 +187,9 @@ impl SeqModel for C19 {
             v.push(Act::TruncateCached);
             v.push(Act::ExtendCached);
             v.push(Act::ForeignCached);
+        }
+        if !self.cached_files(&s.cache, "data").is_empty() {
+            v.push(Act::ForeignLongerCachedPack);
         }
         v.push(Act::PlantJunk);
         v
@@ -217,7 +224,7 @@ impl SeqModel for C19 {
             c.push(format!("{tdir}:{desc}:{}", if in_store { "live" } else { "stale" }));
         }
         c.sort();
-        format!("{}\n--cache--\n{}\nn={}", canon_store(&self.raw, &s.store).join("\n"), c.join("\n"), s.n) + if s.tainted { " tainted" } else { "" }
+        format!("{}\n--cache--\n{}\nn={}", canon_store(&self.raw, &s.store).join("\n"), c.join("\n"), s.n) + if s.tainted { " tainted" } else { "" } + if s.tainted_pack { " tainted-pack" } else { "" }
     }
 
     fn invariant(&self, _s: &St, _rep: &mut Report) -> Result<(), Viol> {
@@ -242,7 +249,14 @@ impl SeqModel for C19 {
                     // a cached check may additionally report cache mismatches
                     let strip = |r: &str| r.replace(" +cache-mismatch-reported", "");
                     if strip(&res) != strip(&res_t) {
-                        let sig = if s.tainted { "C19/result-differs/foreign-same-size-cache-entry".to_string() } else { format!("C19/result-differs/{cls}") };
+                        let sig = if s.tainted {
+                            "C19/result-differs/foreign-same-size-cache-entry".to_string()
+                        } else if s.tainted_pack && !matches!(op, Op::Check { .. }) {
+                            // (check itself removes wrong-size pack entries before it reads trees)
+                            "C19/result-differs/foreign-longer-cached-pack".to_string()
+                        } else {
+                            format!("C19/result-differs/{cls}")
+                        };
                         return Err((sig, format!("cached: {res} / uncached: {res_t}")));
                     }
                     if canon_store(&self.raw, &after) != canon_store(&self.raw, &twin.store()) {
@@ -279,6 +293,9 @@ impl SeqModel for C19 {
                     }
                     n.cache = new_cache;
                 }
+                if cached && matches!(op, Op::Check { .. }) {
+                    n.tainted_pack = false;
+                }
                 // bookkeeping from the (real) result
                 if matches!(op, Op::Backup) && res.starts_with("Ok") {
                     n.n += 1;
@@ -311,6 +328,16 @@ impl SeqModel for C19 {
                     });
                 }
             }
+            Act::ForeignLongerCachedPack => {
+                let mut files = self.cached_files(&s.cache, "data");
+                files.sort();
+                if let Some(p) = files.first() {
+                    let e = n.cache.get_mut(p).unwrap();
+                    let d = e.data.clone().unwrap_or_default();
+                    e.data = Some(d.iter().map(|b| b ^ 0x5a).chain(*b"SIXTEEN MORE BYT").collect());
+                    n.tainted_pack = true;
+                }
+            }
             Act::PlantJunk => {
                 let mk = |data: &[u8]| vkit::fsx::FsNode { kind: "file".into(), data: Some(data.to_vec()), target: None, mode: 0o644, mtime: 0, ino: 0, nlink: 1 };
                 for tdir in ["snapshots", "index"] {
@@ -331,7 +358,7 @@ pub fn run(args: &Args, rep: &mut Report) {
     let dir = sandbox(&format!("c19-{}", args.shard));
     let quick = args.quick();
     let depth = if quick { 3 } else { 4 };
-    rep.set_meta("bounds", json!(format!("BFS depth {depth} from two initial states (empty; two snapshots with a filled cache) over {{backup, get_all_snapshots, get_snapshots([full id]), forget, prune, check trust-cache/not, read all snapshots}} through a cached handle (each compared with an uncached twin on a clone of the repository) and {{backup, forget, prune}} through an uncached handle, plus cache faults: truncate a cached file, append 16 bytes to it, replace it by other bytes of the same size, plant junk (`xyz`, upper-case hex, `-tmp-`, a well-formed name the repository lacks)")));
+    rep.set_meta("bounds", json!(format!("BFS depth {depth} from two initial states (empty; two snapshots with a filled cache) over {{backup, get_all_snapshots, get_snapshots([full id]), forget, prune, check trust-cache/not, read all snapshots}} through a cached handle (each compared with an uncached twin on a clone of the repository) and {{backup, forget, prune}} through an uncached handle, plus cache faults: truncate a cached file, append 16 bytes to it, replace a cached tree pack by a longer foreign file, replace it by other bytes of the same size, plant junk (`xyz`, upper-case hex, `-tmp-`, a well-formed name the repository lacks)")));
     let m = C19 { raw, dir: dir.clone() };
     bfs(&m, depth, 100_000, args, rep);
     _ = fs::remove_dir_all(&dir);
